@@ -18,6 +18,10 @@ use crate::deflate::zlib;
 use crate::shared::{update_adler32, HUFFMAN_LENGTH_ORDER, MZ_ADLER32_INIT};
 use crate::DataFormat;
 
+#[cfg(feature = "verif-hooks")]
+#[path = "core_verif.rs"]
+pub mod verif;
+
 // Currently not bubbled up outside this module, so can fill in with more
 // context eventually if needed.
 type Result<T, E = Error> = core::result::Result<T, E>;
